@@ -11,7 +11,7 @@ pub struct InputVariant {
     pub ident: syn::Ident,
     attr_name: Option<String>,
     data: Fields<InputField>,
-    skip: Option<bool>,
+    pub skip: Option<bool>,
     /// Whether or not the variant should be used to create an instance for
     /// `FromMeta::from_word`.
     pub word: Option<SpannedValue<bool>>,
